@@ -36,6 +36,18 @@ def shapes():
             (f"{tag}:elif-chain-one-missing", [if_(A, [d()], [if_(B, [d()], [assign("next", "p", A)])]), u()], False),
             (f"{tag}:elif-chain-all", [if_(A, [d()], [if_(B, [d()], [d()])]), u()], False),
             (f"{tag}:two-temps-one-partial", [d("t"), if_(A, [d("r")]), u("t")] + ([u("r")] if tag == "num" else [USEB("r")]), False),
+            (f"{tag}:def-use-in-both-branches", [if_(A, [d(), u()], [d(), u()])], False),
+            # match statements (with and without default)
+            (f"{tag}:match-def-use-same-case", [match_(D, [(pint(0), [d(), u()]), (pint(1), [assign("next", "p", A)])])], False),
+            (f"{tag}:match-def-before-use-in-case", [d(), match_(D, [(pint(0), [u()]), (pint(1), [assign("next", "p", A)])], default=[u()])], False),
+            (f"{tag}:match-def-in-first-case-use-after", [match_(D, [(pint(0), [d()]), (pint(1), [assign("next", "p", A)])]), u()], False),
+            (f"{tag}:match-def-in-only-case-no-default-use-after", [match_(D, [(pint(0), [d()])]), u()], False),
+            (f"{tag}:match-def-in-last-case-no-default-use-after", [match_(D, [(pint(0), [assign("next", "p", A)]), (pint(1), [d()])]), u()], False),
+            (f"{tag}:match-def-in-default-use-after", [match_(D, [(pint(0), [assign("next", "p", A)])], default=[d()]), u()], False),
+            (f"{tag}:match-def-in-case-use-in-other-case", [match_(D, [(pint(0), [d()]), (pint(1), [u()])])], False),
+            (f"{tag}:match-def-in-case-use-in-default", [match_(D, [(pint(0), [d()])], default=[u()])], False),
+            (f"{tag}:match-in-if-def-use-after", [if_(A, [match_(D, [(pint(2), [d()])], default=[assign("next", "p", B)])], [d()]), u()], False),
+            (f"{tag}:if-in-match-def-use-after", [match_(D, [(pint(2), [if_(A, [d()])])], default=[d()]), u()], False),
             # state machines: an intermediate may not cross a state boundary
             (f"{tag}:coro-def-await-use", [d(), await_(A), u()], True),
             (f"{tag}:coro-def-use-same-state", [await_(A), d(), u(), await_(B)], True),
@@ -43,7 +55,22 @@ def shapes():
             (f"{tag}:coro-def-in-loop-use-after", [while_(A, [d(), USEB("t") if tag != "num" else u()]), assign("next", "p", B)], True),
             (f"{tag}:coro-def-in-state-if-use-after-if", [await_(A), if_(B, [d()]), u()], True),
         ]
+    # for-break chains whose body defines an intermediate value
+    TM = bin_("add", ref("v_"), pint(1))
+    out += [
+        ("for:def-in-chain-use-after", [forchain([A, B], [D, slice_u(ref("w"))], "t", mode="bind", tmpl=TM), USE()], False),
+        ("for:def-in-chain-and-else-use-after", [forchain([A, B], [D, slice_u(ref("w"))], "t", mode="bind", tmpl=TM, elseval=bin_("add", D, pint(2))), USE()], False),
+        ("for:single-iteration-use-after", [forchain([A], [D], "t", mode="bind", tmpl=TM), USE()], False),
+        ("for:def-before-chain-use-in-values", [DEF(), forchain([A, B], [ref("t"), D], "o", tmpl=resize(ref("v_"), 3))], False),
+        ("for:def-before-chain-use-after", [DEF(), forchain([A, B], [pint(1), pint(2)], "o"), USE()], False),
+        ("for:def-in-then-use-in-chain-values", [if_(A, [DEF()]), forchain([B], [ref("t")], "o", tmpl=resize(ref("v_"), 3))], False),
+        ("for:coro-def-await-chain", [DEF(), await_(A), forchain([B], [ref("t")], "o", tmpl=resize(ref("v_"), 3))], True),
+    ]
     return out
+
+
+def slice_u(e):
+    return view(slice_(e, 1, 0), "u")
 
 
 def run(tier):
